@@ -263,9 +263,12 @@ class Faulty:
             inherited = bool(last is not None and last[2] == 'IN' and last[3] == nid and not last[6])
         if self.defer:
             import asyncio
+            self.pending_bodies = getattr(self, 'pending_bodies', {})
+            self.pending_bodies[i] = len(self.log.ev) if self.log is not None else 0     # where in the log the call happened
 
             async def body():
                 await asyncio.sleep(0)
+                self.pending_bodies.pop(i, None)
                 if i in self.fail:
                     raise self._fault(i, cause, inherited)
                 return self.fn(*a, **k)
